@@ -60,27 +60,31 @@ def scan(rounds=3):
     funcs, classes = collect()
     drv = Driver()
     summaries = {}
-    units = [(f, n.name, n) for f, n in funcs]
+    units = [(f, n.name, n, None) for f, n in funcs]
     for f, c in classes:
         for m in c.body:
             if isinstance(m, ast.FunctionDef):
-                units.append((f, m.name, m))
+                units.append((f, m.name, m, c.name))
     count = {}
-    for _, nm, _ in units:
+    for _, nm, _, _ in units:
         count[nm] = count.get(nm, 0) + 1
     for _ in range(rounds):
         items, meta = [], []
-        for f, nm, node in units:
-            if count[nm] != 1 or (nm.startswith('__') and nm.endswith('__')):
+        for f, nm, node, cname in units:
+            if nm.startswith('__') and nm.endswith('__'):
                 continue
-            ps, ctx, prog, tr = E.translate_function(node, summaries)
+            keys = ([nm] if count[nm] == 1 else []) + ([f'{cname}.{nm}'] if cname else [])
+            if not keys:
+                continue
+            ps, ctx, prog, tr = E.translate_function(node, summaries, cname)
             ret = ctx.var('<return>')
             k = len(ps)
-            items.append((k, ret, list(range(k)), prog))
-            meta.append((nm, k, 'all'))
-            for i in range(k):
-                items.append((k, ret, [i], prog))
-                meta.append((nm, k, i))
+            for key in keys:
+                items.append((k, ret, list(range(k)), prog))
+                meta.append((key, k, 'all'))
+                for i in range(k):
+                    items.append((k, ret, [i], prog))
+                    meta.append((key, k, i))
         # class constructors: the object keeps references to its __init__ arguments; which of them may some method write?
         cls_items = []
         for f, c in classes:
